@@ -85,6 +85,9 @@ def search_leg(chk, rng, tier):
             v = [0.0] * dim if rng.random() < 0.15 else rand_vec(rng, dim, 64)
             vecs[id_] = v
             c.add(id_, v, b'm')
+        if ci % 3 != 2:
+            # the metric is a property of the stored collection: reopened with the name only, or with the other metric
+            c.reopen(None if ci % 3 == 0 else (1 - metric, dim, 64))
         queries = [[0.0] * dim, list(vecs[1]), [-x for x in vecs[1]], [x * 4 for x in vecs[1]]] + [rand_vec(rng, dim, 64) for _ in range(3)]
         plan = []
         for qv in queries:
